@@ -7,9 +7,18 @@ class CallTimeout(BaseException):
     """Raised inside the implementation when one call exceeds its time budget."""
 
 
+_timeouts = [0]
+
+
 @contextlib.contextmanager
 def limit(seconds):
+    # after three calls of this process have run out of their budget the later budgets shrink to a tenth (at least one
+    # second): a change that makes many calls loop forever is reported within minutes instead of hours
+    if _timeouts[0] >= 3:
+        seconds = max(1.0, seconds / 10.0)
+
     def handler(signum, frame):
+        _timeouts[0] += 1
         raise CallTimeout()
     # The budget is user-mode processor time of this process (ITIMER_VIRTUAL), so that a machine busy with other work cannot
     # turn a call that terminates into a timeout - neither by taking the processor away nor by making the kernel work on the
